@@ -366,3 +366,73 @@ def run_utils(rep):
     rep.oblige(f"kernel: real utils observations (classes, names, index round trip, 484 hex pairs, {len(ec)} str_equal, {len(cc)} find_char, {len(lc)} str_len, {len(fc)} find_str cases) = the byte-level mirror's (Cases_utils_{tag}.v)", ok, detail)
     rep.notes["utils_input_distribution"] = {"str_equal": len(ec), "equal_pairs": sum(1 for c in cases if c[0] == "E" and c[1] == c[2]), "find_char": len(cc), "find_char_found": sum(1 for x in cc if "Some" in x), "str_len": len(lc), "find_str": len(fc), "find_str_not_found": sum(1 for x in fc if x.endswith("None)"))}
     return len(cases) + 256 * 3 + 484
+
+# ================================================================ namespace buffers (Model/Buffers.v)
+def ensure_buffers():
+    key = sha(HEADER, VERIF + "/harness/buffers_h.cpp")
+    d = f"{CACHE}/buf-{key}"
+    with locked("buf"):
+        if os.path.exists(d + "/ok"): return d, None
+        os.makedirs(d, exist_ok=True)
+        rc, out, _ = sh(f"g++ -std=c++17 -O1 -I{REPO}/include -o {d}/buf {VERIF}/harness/buffers_h.cpp", timeout=900)
+        if rc: return d, out
+        open(d + "/ok", "w").write("ok")
+        return d, None
+
+def run_buffers(rep):
+    """every lexeme of short texts (incl. NUL, bytes >= 0x80) through the three REAL buffer kinds; judged by slicing, and the kernel
+    checks that the byte-level mirror computes the same views"""
+    d, err = ensure_buffers()
+    if err:
+        rep.tie_broken("the buffers harness no longer compiles against /repo's header: " + err[-500:]); return 0
+    rnd = random.Random(3000 + rep.seed)
+    n = 40 if rep.tier == "quick" else 300
+    alpha = [97, 98, 32, 10, 0, 255, 128, 59]
+    cases = [([], [], []), ([120], [], [121]), ([], [97], []), ([1, 2], [97, 98, 99, 100, 101, 102, 103, 104], [3])]
+    for _ in range(n):
+        cases.append(([rnd.choice(alpha) for _ in range(rnd.randrange(0, 4))], [rnd.choice(alpha) for _ in range(rnd.randrange(0, 9))], [rnd.choice(alpha) for _ in range(rnd.randrange(0, 4))]))
+    cf = f"{d}/cases_{rep.pid}_{rep.tier}_{rep.seed}.txt"
+    open(cf, "w").write("\n".join(f"{hx(p)} {hx(t)} {hx(q)}" for p, t, q in cases) + "\n")
+    rc, out, _ = sh(f"timeout 120 {d}/buf {cf}", timeout=150)
+    lines = [l for l in out.split("\n") if l.strip()]
+    if rc != 0 or len(lines) != 3 * len(cases):
+        rep.fail(kind="real-buffer-code-crashed", detail=f"exit status {rc}, {len(lines)} lines for {len(cases)} texts", tail=out[-300:]); return 0
+    coq = []; nviews = 0
+    def unh(h): return [] if h == "-" else [int(h[i:i + 2], 16) for i in range(0, len(h), 2)]
+    try:
+        for k, (p, t, q) in enumerate(cases):
+            want = [t[s:e] for s in range(len(t) + 1) for e in range(s, len(t) + 1)]
+            obs = {}
+            for line in lines[3 * k:3 * k + 3]:
+                _, kind, body = line.split(" ", 2)
+                f = body.split("|")
+                vs = [unh(x) for x in f[0].split(",") if x != ""]
+                obs[kind] = vs; nviews += len(vs); rep.cov["evaluations"] += 1
+                walked = unh(f[1]) if f[1] else []
+                if vs != want or walked != t or int(f[2]) != len(t) or (kind == "C" and f[3] != "00"):
+                    bad = next((i for i, (a, b) in enumerate(zip(vs, want)) if a != b), None)
+                    rep.fail(kind="lexeme-is-not-the-slice-of-the-callers-text", buffer={"C": "cstring_buffer", "S": "string_buffer", "V": "string_view_buffer"}[kind], text=t, bytes_before_the_view=p, bytes_after=q,
+                             first_wrong_view=(vs[bad] if bad is not None else None), expected=(want[bad] if bad is not None else None), bytes_under_the_iterators=walked, distance=f[2])
+            okv = lambda vs: "[" + "; ".join("Ok " + cstr_of(v) for v in vs) + "]"
+            coq.append(f"({cstr_of(p)}, {cstr_of(t)}, {cstr_of(q)}, {okv(obs['C'])}, {okv(obs['S'])}, {okv(obs['V'])})")
+    except (ValueError, IndexError, KeyError) as ex:
+        rep.tie_broken(f"buffers harness output could not be read ({ex})"); return 0
+    tag = f"{rep.pid}_{rep.tier}_{rep.seed}"
+    path = f"{COQ}/Cases_buffers_{tag}.v"
+    src = ["From Ctpg Require Import Base.Prelude Model.Containers Model.Utils Model.Buffers.", "From Coq Require Import List.", "Import ListNotations.",
+           "Definition rl_eqb (a b : list (res (list nat))) : bool := list_eqb (res_eqb (list_eqb Nat.eqb)) a b.",
+           "Definition case_ok (c : list nat * list nat * list nat * list (res (list nat)) * list (res (list nat)) * list (res (list nat))) : bool :=",
+           "  let '(pre, text, post, oc, os, ov) := c in",
+           "  rl_eqb (all_views (cs_get_view (cs_of_literal text)) 0 (length text)) oc && rl_eqb (all_views (sb_get_view {| sb_str := text |}) 0 (length text)) os",
+           "  && rl_eqb (all_views (svb_get_view {| sv_mem := pre ++ text ++ post; sv_off := length pre; sv_len := length text |}) (length pre) (length text)) ov.",
+           "Definition cases : list (list nat * list nat * list nat * list (res (list nat)) * list (res (list nat)) * list (res (list nat))) := [" + ";\n ".join(coq) + "].",
+           "Lemma real_lexemes_of_all_buffer_kinds_are_the_models : forallb case_ok cases = true. Proof. vm_compute. reflexivity. Qed."]
+    open(path, "w").write("\n".join(src) + "\n")
+    coq_make(["Model/Buffers.vo", "Model/Utils.vo"])
+    ok, out, dt = coqc_file(os.path.basename(path), timeout=600)
+    for ext in (".vo", ".vok", ".vos", ".glob"):
+        try: os.remove(path[:-2] + ext)
+        except OSError: pass
+    rep.oblige(f"kernel: every lexeme get_view(begin+s, begin+e) of {len(cases)} texts through the real cstring_buffer, string_buffer and string_view_buffer ({nviews} views) = the byte-level mirror's (Cases_buffers_{tag}.v)", ok, "" if ok else out[-300:])
+    rep.notes["buffers_input_distribution"] = {"texts": len(cases), "views": nviews, "texts_with_nul": sum(1 for _, t, _ in cases if 0 in t), "empty_texts": sum(1 for _, t, _ in cases if not t)}
+    return nviews
